@@ -427,3 +427,6 @@ func Accepted(prop string, c Case, detail string) {
 func Refused(prop string, c Case, msg string) {
 	vio(prop, c, "derivation-panicked", "derivation of a valid focus panicked: %s", msg)
 }
+
+// Eq is the bit-exact deep equality used by the checks.
+func Eq(a, b any) bool { return eq(a, b) }
